@@ -267,6 +267,7 @@ def run(ctx):
     # D10: JIT mode computes what the other modes compute for float programs only with FTZ|DAZ set (shared with C18 D2)
     import importlib as _il10
     _il10.import_module("rules.c18").has_float_tests_both(db, rep, "D10-FLOAT-MODE-TRIGGER")
+    d11_acc_lanes_limited(db, rep)
     # a generated wrapper hands native code an uncleared stack executor: every counter the code reads must have been stored by it (shared with C03 D8)
     import emitstate as _es
     _names = {}
@@ -412,6 +413,56 @@ def wrapper_executor_fill(db, rep, rule):
 
 
 STORE_ROW_WIDTH = {"pextrb": 1, "pextrw": 2, "movd": 4, "pextrd": 4, "movq": 8, "pextrq": 8, "movdqa": 16, "movdqu": 16, "movntdq": 16, "movups": 16, "movaps": 16}
+
+
+def d11_acc_lanes_limited(db, rep, rule="D11-ACC-LANES-LIMITED"):
+    """D11: "accumulator out-pointers ... computes the program's emulation semantics" in JIT mode.  The x86 loop runs its first
+    and last iterations with a smaller loop_shift, but vector instructions compute every lane of a register: after `addl t, s, 1`
+    the lanes beyond the iteration's element count are not zero.  An accumulating rule sums the whole register, so for every
+    loop_shift at which size << loop_shift is less than the register size it must first reduce its source to the valid lanes:
+    a byte / bit shift that pushes the other lanes out, or a narrowing move.  For accw and accl of the sse, mmx and avx back
+    ends and every such loop_shift, an emitted lane limiter must be reachable in the rule (or the helper it calls) when its
+    conditions are evaluated for that loop_shift (exprval.reachable_under)."""
+    from exprval import reachable_under
+    from flow import single_defs
+    rows = init_rows(db.tu("orcx86insn").global_("orc_x86_opcodes"))
+    LIMIT = ("pslldq", "psrldq", "psllq", "psrlq")
+    n = 0
+    for tub, px, regsize in (("orcrules-sse", "sse", 16), ("orcrules-mmx", "mmx", 8), ("orcrules-avx", "avx", 32)):
+        tu = db.tu(tub)
+        for op, size in (("accw", 2), ("accl", 4)):
+            f = tu.fn.get("%s_rule_%s" % (px, op))
+            if f is None:
+                raise AnalysisBroken("%s_rule_%s not found" % (px, op))
+            rep.saw(f)
+            scope = [f] + [tu.fn[c.name] for c in f.calls() if c.name in tu.fn and tu.fn[c.name].body is not None and c.name != f.name]
+            k = 0
+            bad = []
+            while (size << k) < regsize:
+                ok = False
+                for g in scope:
+                    sd = single_defs(g)
+                    env = {"p->loop_shift": k, "p->vars[].size": size}
+                    for c in g.calls():
+                        if not c.name or "cpuinsn" not in c.name or len(c.args()) < 2:
+                            continue
+                        rv = strip_casts(c.args()[1]).v
+                        rn = rows[rv]["name"] if rv is not None and 0 <= rv < len(rows) else ""
+                        narrowing = rn in ("movdqa", "movdqu", "movq", "movd") and px == "avx" and any(strip_casts(a).v == db.enum("ORC_X86_AVX_VEX128_PREFIX") for a in c.args()[-1:]) \
+                            and (size << k) >= 16
+                        if (rn in LIMIT or narrowing) and reachable_under(g, env, lambda e, c=c: e.id == c.id, resolve=lambda nm, sd=sd: sd.get(nm)):
+                            ok = True
+                if not ok:
+                    bad.append(k)
+                k += 1
+            n += 1
+            rep.check(not bad, rule, where(f), "%s:%s" % (px, op),
+                      "for every loop_shift below %d the rule limits its source to the first %d << loop_shift bytes before adding" % (k, size),
+                      "%s adds the whole source register to the accumulator also when the iteration covers only %s of the %d-byte register (loop_shift %s): "
+                      "lanes that hold no array element - but are not zero after a preceding vector instruction such as `addl t, s, 1` or a select - are summed, "
+                      "and the JIT result differs from emulation, backup code and the DISABLE_ORC build for most n" %
+                      (f.name, "/".join("%d bytes" % (size << kk) for kk in bad), regsize, ", ".join(map(str, bad))), line=f.line)
+    return n
 
 
 def d9_acc16_masked(db, rep, rule="D9-ACC16-MASKED"):
